@@ -568,7 +568,19 @@ type c01Live struct {
 	D *int
 }
 
+// Verify rejects negative C: a rejected re-stack leaves the view alone, but the reporting source's value stays its
+// latest value for every later re-stack.
+func (c *c01Live) Verify() error {
+	if c.C < 0 {
+		return fmt.Errorf("harness: C must not be negative (%d)", c.C)
+	}
+	return nil
+}
+
 type c01LiveSrc struct {
+	// keep: this watcher keeps one value object, rewrites it in place and reports the same pointer
+	keep bool
+	obj  reflect.Value
 	mu  sync.Mutex
 	cur [4]any // nil = unset; A,B string; C int; D int
 	wa  dials.WatchArgs
@@ -628,7 +640,7 @@ func c01Watchers(w *fw.Worker, i int, r *fw.Rand) {
 	type staticOnly struct{ dials.Source }
 	nW := 0
 	for k := range srcs {
-		srcs[k] = &c01LiveSrc{cur: draw()}
+		srcs[k] = &c01LiveSrc{cur: draw(), keep: r.Chance(40)}
 		watching[k] = r.Chance(70)
 		if watching[k] {
 			nW++
@@ -686,18 +698,47 @@ func c01Watchers(w *fw.Worker, i int, r *fw.Rand) {
 	if nW == 0 {
 		return
 	}
-	for step := r.Range(1, 5); step > 0; step-- {
+	for step := r.Range(2, 7); step > 0; step-- {
 		k := r.Intn(n)
 		for !watching[k] {
 			k = r.Intn(n)
 		}
 		s := srcs[k]
 		l := draw()
+		if r.Chance(20) {
+			uniq++
+			l[2] = -uniq // Verify will reject the stack if this C wins
+		}
 		s.mu.Lock()
 		s.cur = l
 		wa, t := s.wa, s.typ
 		s.mu.Unlock()
-		if rerr := wa.BlockingReportNewValue(ctx, s.value(t.Type(), l)); rerr != nil {
+		val := s.value(t.Type(), l)
+		if s.keep {
+			if !s.obj.IsValid() {
+				s.obj = reflect.New(t.Type())
+			}
+			s.obj.Elem().Set(val)
+			val = s.obj
+			w.Count("reports_of_one_rewritten_value_object", 1)
+		}
+		before := *d.View()
+		rerr := wa.BlockingReportNewValue(ctx, val)
+		want := ref()
+		if want.C < 0 {
+			// rejected: error returned, view unchanged; the slot still holds the new layer
+			if rerr == nil {
+				w.Violation(i, "invalid-stack-accepted-after-watcher-update", fmt.Sprintf("stack %+v fails Verify but the blocking report returned nil", want), desc)
+				return
+			}
+			if df := gen.Diff(reflect.ValueOf(before), reflect.ValueOf(*d.View())); df != "" {
+				w.Violation(i, "view-changed-by-rejected-watcher-update", df, desc)
+				return
+			}
+			w.Count("rejected_watcher_updates", 1)
+			continue
+		}
+		if rerr != nil {
 			w.Violation(i, "watcher-update-failed", rerr.Error(), desc)
 			return
 		}
